@@ -335,27 +335,52 @@ func fieldIndex(t types.Type, name string) (int, bool) {
 	return 0, false
 }
 
+// fieldPath finds field f in struct type t, looking through embedded structs (promoted fields).
+func fieldPath(t types.Type, f string, depth int) ([]int, bool) {
+	st, ok := types.Unalias(t).Underlying().(*types.Struct)
+	if !ok || depth > 4 {
+		return nil, false
+	}
+	for i := 0; i < st.NumFields(); i++ {
+		if st.Field(i).Name() == f {
+			return []int{i}, true
+		}
+	}
+	for i := 0; i < st.NumFields(); i++ {
+		if st.Field(i).Embedded() {
+			ft := st.Field(i).Type()
+			if _, isPtr := types.Unalias(ft).Underlying().(*types.Pointer); isPtr {
+				continue
+			}
+			if p, ok := fieldPath(ft, f, depth+1); ok {
+				return append([]int{i}, p...), true
+			}
+		}
+	}
+	return nil, false
+}
+
 func (e *SpecEnv) selectField(v *Val, f string) *Val {
 	if v.K == VPtr {
 		// auto-dereference
 		root := v.Ptr.Root
 		_, t := pathPrefix(root, v.Ptr.Path)
-		i, ok := fieldIndex(t, f)
+		path, ok := fieldPath(t, f, 0)
 		if !ok {
 			sfail("type %s has no field %s", typeString(t), f)
 		}
 		np := *v
 		pi := *v.Ptr
-		pi.Path = append(append([]int(nil), v.Ptr.Path...), i)
+		pi.Path = append(append([]int(nil), v.Ptr.Path...), path...)
 		np.Ptr = &pi
 		return e.x.loadNoCheck(e.st, &np)
 	}
 	if v.K == VStruct {
-		i, ok := fieldIndex(v.Typ, f)
+		path, ok := fieldPath(v.Typ, f, 0)
 		if !ok {
 			sfail("type %s has no field %s", typeString(v.Typ), f)
 		}
-		return v.Fields[i]
+		return subVal(v, path)
 	}
 	sfail("field selection .%s on a value of kind %d", f, v.K)
 	return nil
@@ -462,6 +487,13 @@ func (e *SpecEnv) call(n SCall) *Val {
 			sfail("freshSlice(slice)")
 		}
 		return boolVal(And(Ge(v.T, e.old.NextRef), Lt(v.T, e.st.NextRef), Eq(v.Off, Num(0))))
+	case "global":
+		// value of a package-level variable of byte-string / string type, e.g. global("types.ParamsKey")
+		s, ok := n.Args[0].(SStrLit)
+		if !ok {
+			sfail("global(\"pkg.Name\")")
+		}
+		return &Val{K: VStr, T: Const("glob:"+e.x.P.resolveGlobal(e.pkg, s.S), SStr)}
 	case "storeOf":
 		// name of the KV store opened with the given store key (interface value)
 		v := e.eval(n.Args[0])
@@ -492,6 +524,15 @@ func (e *SpecEnv) call(n SCall) *Val {
 			sorts = append(sorts, l.Sort)
 		}
 		return &Val{K: VStr, T: UF("enc:"+heapTypeKey(t), sorts, SStr, args...)}
+	case "decSnap":
+		// decSnap("pkg.Type", bytes): the abstract deep value whose encoding is bytes (inverse of enc for messages with references)
+		s, ok := n.Args[0].(SStrLit)
+		if !ok {
+			sfail("decSnap(\"Type\", bytes)")
+		}
+		t := e.x.P.resolveType(e.pkg, s.S)
+		fn := "encsnap:" + heapTypeKey(t)
+		return &Val{K: VInt, T: UF("dec0:"+fn, []string{SStr}, SInt, scalar(e.eval(n.Args[1])))}
 	case "enc":
 		v := e.eval(n.Args[0])
 		if v.K == VPtr {
@@ -842,4 +883,33 @@ func (p *Program) resolveType(pkgPath, name string) types.Type {
 	}
 	sfail("cannot resolve type %s in %s", name, pkgPath)
 	return nil
+}
+
+// resolveGlobal resolves "pkg.Name" / "Name" to the qualified name <import path>.<Name> of a package-level variable.
+func (p *Program) resolveGlobal(pkgPath, name string) string {
+	var pkg *types.Package
+	for _, pk := range p.Pkgs {
+		if pk.PkgPath == pkgPath {
+			pkg = pk.Types
+		}
+	}
+	if pkg == nil {
+		sfail("unknown package %s", pkgPath)
+	}
+	if i := strings.LastIndex(name, "."); i >= 0 {
+		q, nm := name[:i], name[i+1:]
+		for _, imp := range pkg.Imports() {
+			if imp.Name() == q || strings.HasSuffix(imp.Path(), "/"+q) {
+				if o := imp.Scope().Lookup(nm); o != nil {
+					return imp.Path() + "." + nm
+				}
+			}
+		}
+		sfail("cannot resolve global %s from %s", name, pkgPath)
+	}
+	if o := pkg.Scope().Lookup(name); o != nil {
+		return pkgPath + "." + name
+	}
+	sfail("cannot resolve global %s in %s", name, pkgPath)
+	return ""
 }
